@@ -12,12 +12,16 @@ def u8Arg (s : String) : Option UInt8 :=
   | none => none
 
 /-- Key stream given as explicit bytes (`-` = unencrypted = all zero); positions beyond the given
-    bytes are zero. -/
-def ksOfBytes (b : Bytes) : Nat → UInt8 :=
-  let a := b.toArray
-  fun i => a.getD i 0
+    bytes are zero. (Takes the array, not the list: the conversion must happen once, not per
+    byte.) -/
+def ksOfArray (a : Array UInt8) (i : Nat) : UInt8 := a.getD i 0
 
-def ksArg (s : String) : Option (Nat → UInt8) := (hexArg s).map ksOfBytes
+def ksArg (s : String) : Option (Nat → UInt8) := (hexArg s).map (fun b => ksOfArray b.toArray)
+
+def cipherOfTable (tbl : Array (Nat × Array UInt8)) (off : Nat) : Nat → UInt8 :=
+  match tbl.find? (fun x => x.1 == off) with
+  | some (_, a) => ksOfArray a
+  | none => noKs
 
 /-- `off:hex,off:hex,...` (or `-`): key stream per record offset. -/
 def cipherArg (s : String) : Option (Nat → Nat → UInt8) :=
@@ -29,10 +33,7 @@ def cipherArg (s : String) : Option (Nat → Nat → UInt8) :=
       | some o, some b => some (o, b.toArray)
       | _, _ => none
     | _ => none
-  parsed.map fun tbl => fun off =>
-    match tbl.find? (fun x => x.1 == off) with
-    | some (_, a) => fun i => a.getD i 0
-    | none => noKs
+  parsed.map fun tbl => cipherOfTable tbl.toArray
 
 def entryStr (e : Entry) : String :=
   s!"{e.metaB.toNat} {e.userMeta.toNat} {e.expiresAt} {toHex e.key} {toHex e.value}"
